@@ -11,7 +11,7 @@ import os
 import uuid
 import copy
 import socket
-from typing import ClassVar, Generator, TYPE_CHECKING
+from typing import Any, ClassVar, Generator, TYPE_CHECKING
 
 if TYPE_CHECKING:
     from exabgp.reactor.loop import Reactor
@@ -276,6 +276,7 @@ class Listener:
                         lazymsg('refused connection from {name} due to the state machine', name=connection.name()),
                         'network',
                     )
+                    self._refuse(connection, denied)
                     break
                 log.debug(lazymsg('accepted connection from {name}', name=connection.name()), 'network')
                 break
@@ -321,10 +322,20 @@ class Listener:
                         lazymsg('refused connection from {name} due to the state machine', name=connection.name()),
                         'network',
                     )
+                    self._refuse(connection, denied)
                     return
 
                 reactor.register_peer(new_neighbor.name(), new_peer)
                 return
+
+    @staticmethod
+    def _refuse(connection: Incoming, denied: Any) -> None:
+        # handle_connection() answers with a generator which writes the NOTIFICATION and closes the
+        # connection: it does nothing until it is run, and nobody ran it (the refused connection was
+        # left open, unanswered, for ever). A NOTIFICATION is one small write: a few steps suffice.
+        for _ in zip(range(64), denied):
+            pass
+        connection.close()
 
     def stop(self) -> None:
         if not self.serving:
